@@ -613,6 +613,7 @@ func runC03(c *Ctx, r *Report) {
 	c03Writers(c, r)
 	c03NoSingletonInCollections(c, r)
 	c03NoArgumentArrayMutation(c, r)
+	c03PrintrepReads(c, r)
 }
 
 func fxStrings(c *Ctx, fx []textFx) []string {
